@@ -144,7 +144,15 @@ def _check_pipeline(rep, funcs, mapname, translate_table):
         rep.check(isinstance(d0, ast.Constant) and d0.value == '', 'TAB.default-deletes-nothing', FILE, 'clean', '%s=%s' % (dele, src(d0)), fn.lineno,
                   'clean() called without %s deletes %s: the default must be the empty string, callers of clean(number) expect only the look-alike mapping'
                   % (dele, src(d0)), what='clean(number, %s=\'\')' % dele)
-    users = [f for f, f_ in funcs.items() if any(isinstance(x, ast.Name) and x.id == mapname for x in ast.walk(f_))]
+    # module-level names bound once to str.maketrans(<the table>): a translation table with exactly the table's entries
+    tree_, _f, assigns_ = load_util()
+    trans_names = set()
+    for nm_, st_ in assigns_.items():
+        if match_expr('str.maketrans(%s)' % mapname, st_.value) is not None:
+            stores_ = [x for x in ast.walk(tree_) if isinstance(x, ast.Name) and x.id == nm_ and isinstance(x.ctx, ast.Store)]
+            if len(stores_) == 1:
+                trans_names.add(nm_)
+    users = [f for f, f_ in funcs.items() if any(isinstance(x, ast.Name) and (x.id == mapname or x.id in trans_names) for x in ast.walk(f_))]
     problems = []
     mapper = []
 
@@ -215,7 +223,8 @@ def _check_pipeline(rep, funcs, mapname, translate_table):
                 if v == _RAW:
                     return _Stream(('conv',), guarded, node.lineno)
                 return v if isinstance(v, _Stream) else _UNKNOWN
-            if isinstance(f, ast.Attribute) and f.attr == 'translate' and translate_table and len(node.args) == 1 and src(node.args[0]) == mapname:
+            if isinstance(f, ast.Attribute) and f.attr == 'translate' and len(node.args) == 1 and isinstance(node.args[0], ast.Name) \
+                    and ((translate_table and node.args[0].id == mapname) or node.args[0].id in trans_names):
                 v = ev_(f.value, env, guarded, owner, depth)
                 if isinstance(v, _Stream):
                     mapper.append(owner)
